@@ -625,7 +625,16 @@ class EngineA:
                     (0.0 if g.random() < cfg["p_zero"] else self._next_val(counter)) for _ in range(cnt)
                 ]
                 rhs = {"kind": "tensor", "shape": rshape, "vals_f": vals}
-            st = {"op": op, "key": enc(key), "rhs": rhs}
+            if rhs["kind"] == "scalar" and any(isinstance(k, list) for k in key) and g.random() < 0.12:
+                # one and the same scalar for the whole region: an index list may then name an index twice
+                d = g.choice([j for j, k in enumerate(key) if isinstance(k, list)])
+                lst = list(key[d])
+                lst.insert(g.randrange(len(lst) + 1), g.choice(lst))
+                key = list(key)
+                key[d] = lst
+                st = {"op": op, "key": enc(key), "rhs": rhs, "repeats": True}
+            else:
+                st = {"op": op, "key": enc(key), "rhs": rhs}
             if any(isinstance(k, list) for k in key) and g.random() < 0.4:
                 st["lists_as_arrays"] = True
             return st
@@ -1139,7 +1148,7 @@ class EngineA:
         self._write_effect(w, res, bc, bs)
         return None
 
-    def _region_ok_for_write(self, m: Model, key) -> bool:
+    def _region_ok_for_write(self, m: Model, key, repeats: bool = False) -> bool:
         if len(key) < m.order or len(key) > MAX_ORDER:
             return False
         for d, k in enumerate(key):
@@ -1162,7 +1171,7 @@ class EngineA:
                 if k.stop is not None and k.stop > self._maxext + 2:
                     return False
             elif isinstance(k, list):
-                if len(k) < 2 or len(set(k)) != len(k) or any(j < 0 or j > self._maxext + 2 for j in k):
+                if len(k) < 2 or (len(set(k)) != len(k) and not repeats) or any(j < 0 or j > self._maxext + 2 for j in k):
                     return False
             else:
                 if k > self._maxext + 2:
@@ -1186,12 +1195,14 @@ class EngineA:
         m = w["m"]
         key = dec(step["key"])
         rhs = step["rhs"]
-        if not self._region_ok_for_write(m, key):
+        if not self._region_ok_for_write(m, key, repeats=bool(step.get("repeats")) and rhs["kind"] == "scalar"):
             return "skip"
         newshape = m.region_target_shape(key)
         lists, kept = m.region_lists(key, newshape)
         if any(len(lst) == 0 for lst in lists):
             return "skip"
+        if step.get("repeats"):
+            res.bump("probe:scalar_region_write_with_a_repeated_index")
         rshape = tuple(len(lists[d]) for d in kept)
         if rhs["kind"] == "tensor":
             if tuple(rhs["shape"]) != rshape or not kept:
